@@ -85,6 +85,17 @@ CLAIMED["C12"] = dict(
     technique="TLC exploration of load histories on the listener-machine model with persistent tables + replay of each history in a fresh process",
     design="7/C12")
 
+CLAIMED["C04"] = dict(
+    text="BBTemplate defines textual substitution Subst and the written parameter set; on the listener-machine builder model TLC checks for every "
+         "template script in the bound and two exact environments that Instantiate(Load(T), env) and Load(Subst(T, env)) have the same operations and "
+         "variables, that the reported parameters are exactly those written (whole arrays expanded per element), template iff non-empty, an instance "
+         "has none, and a missing value is a ValueError. The harness runs both sides on the real code (call with the values; load of the rendered "
+         "substituted text), compares both with the specification, tries every missing value, and checks the template is unchanged by the calls.",
+    note="Trusted: TLC, renderer. Instantiated values are compared numerically (SymPy may simplify the stored expression, so int/float kind and array "
+         "dtype of instances are not compared). Redeclared variables, parameters in list keywords/modes/metadata are outside the property.",
+    technique="TLC spec equality Instantiate o Load = Load o Subst on the listener-machine model + both sides replayed into the real code",
+    design="7/C04")
+
 NOT_YET = {}
 
 
